@@ -190,6 +190,12 @@ mod test;
 
 mod mio_source;
 
+// Verification drivers (only with RUSTFLAGS="--cfg rustdds_verif"); the code lives
+// outside this repository, in the verification framework.
+#[cfg(rustdds_verif)]
+#[path = "/verif/harness/inrepo/mod.rs"]
+pub mod verif_hooks;
+
 // Public modules
 pub mod dds; // this is public, but not advertised
 
